@@ -277,6 +277,7 @@ type dataScanner struct {
 	highKeys         []uint16
 	highKey          uint16
 	highContainerIdx int
+	empty            bool // if current container has no series data
 }
 
 // newDataScanner creates a data scanner for data merge
@@ -302,24 +303,31 @@ func (s *dataScanner) fieldIndexes() map[field.ID]int {
 }
 
 // nextContainer goes next container context for scanner
+// NOTE: the context of scanner only is changed when all data of next container are valid,
+// because scan ignores the failure then scans using current context.
 func (s *dataScanner) nextContainer() error {
-	s.highKey = s.highKeys[s.highContainerIdx]
-	s.container = s.reader.seriesIDs.GetContainerAtIndex(s.highContainerIdx)
 	level3Block, err := s.reader.highKeyOffsets.GetBlock(s.highContainerIdx, s.reader.seriesBucket)
 	if err != nil {
 		return err
 	}
-	if len(level3Block) <= 4 {
-		return fmt.Errorf("series entries length too short: %d", len(level3Block))
+	var seriesEntries []byte
+	// if all series under the container have no data, flusher doesn't write low key offsets and footer(shorter than footer),
+	// there is no data can be read under this container(same as loading data for query).
+	empty := len(level3Block) <= 4
+	if !empty {
+		lowKeyOffsetsAt := binary.LittleEndian.Uint32(level3Block[len(level3Block)-4:])
+		if lowKeyOffsetsAt+4 >= uint32(len(level3Block)) {
+			return fmt.Errorf("lowKeyOffsetsAt: %d is out or range: %d-4", lowKeyOffsetsAt, len(level3Block))
+		}
+		if _, err := s.lowKeyOffsets.Unmarshal(level3Block[lowKeyOffsetsAt:]); err != nil {
+			return err
+		}
+		seriesEntries = level3Block[:lowKeyOffsetsAt]
 	}
-	lowKeyOffsetsAt := binary.LittleEndian.Uint32(level3Block[len(level3Block)-4:])
-	if lowKeyOffsetsAt+4 >= uint32(len(level3Block)) {
-		return fmt.Errorf("lowKeyOffsetsAt: %d is out or range: %d-4", lowKeyOffsetsAt, len(level3Block))
-	}
-	if _, err := s.lowKeyOffsets.Unmarshal(level3Block[lowKeyOffsetsAt:]); err != nil {
-		return err
-	}
-	s.seriesEntries = level3Block[:lowKeyOffsetsAt]
+	s.empty = empty
+	s.seriesEntries = seriesEntries
+	s.highKey = s.highKeys[s.highContainerIdx]
+	s.container = s.reader.seriesIDs.GetContainerAtIndex(s.highContainerIdx)
 	s.highContainerIdx++
 	return nil
 }
@@ -340,8 +348,8 @@ func (s *dataScanner) scan(highKey, lowSeriesID uint16) []byte {
 			return nil
 		}
 	}
-	if highKey != s.highKey {
-		// high key not match, return it
+	if highKey != s.highKey || s.empty {
+		// high key not match or no series data under current container, return it
 		return nil
 	}
 	// find data by low series id
